@@ -13,13 +13,25 @@ Cases (JSON):
   {"op":"groupby","group_by":S,"merge":S,"contexts":[ctx|null,..],"via":"fill"|"update","end":"reset"|"clear"}
   {"op":"groupby","group_by":S,"merge":S,"ctxset":"ab2"}                    a named, fixed list of contexts
         S = "str" | ["str",..] (a tuple) | {"list":["str",..]} (a list) | {"notiter":true} (a callable)
+            | {"strsub":"str"} (an instance of a subclass of str) | {"tuplesub":["str",..]} (a named tuple)
+        optional "data": the data of the values — [d,..] (null / bool / int / string / {"pair":[a,b]}: a 2-tuple) or a mode
+        "idx" (default: the position) | "desc" | "str"; optional "alias": [n|null,..] — values with the same number hold ONE
+        context dictionary object, which is updated in place before the next of them is filled; optional "same": true — a value
+        equal to an earlier one is the same Python object, filled again
   {"op":"oldgroupby","group_by":NAME | [NAME,..] | {"bad":true},"values":[..]}   the deprecated _GroupBy with callables
   {"op":"contains","ctx":ctx,"s":"a.b"}   {"op":"splitkey","s":..}   {"op":"startswith","a":[..],"b":[..]}
 SPEC and KEY are the encodings documented in lean/drivers/C15.lean; a context leaf ["obj", s] is an object that json
-cannot encode and whose str() is s.
+cannot encode and whose str() is s; ["list"|"tuple"|"set", [..]] is a container as a context value (sent to the model as
+["obj", str(container)]).  A specification may carry "sub": true (the string / list / tuple is an instance of a
+subclass: _Str, _L, a named tuple).  Data of a value: null / bool / int / string / {"tuple":true} / {"k":KIND}.
+A select case also builds a twin selector FIRST from the same specification object with the other raise_on_error.
 """
+import collections
+import collections.abc
+import fractions
 import functools
 import itertools
+import numbers
 import random
 import warnings
 
@@ -41,6 +53,8 @@ THEOREMS = [
     "Lena.C15.contains_spec",
     "Lena.C15.select_context_absent_false",
     "Lena.C15.select_context_present",
+    "Lena.C15.select_context_pred_raises",
+    "Lena.C15.class_selector_tests_type",
     "Lena.C15.filter_stops_at_first_error",
     "Lena.C15.filter_keeps_selected",
     "Lena.C15.fill_into_spec",
@@ -58,6 +72,7 @@ THEOREMS = [
     # Part 3: GroupBy
     "Lena.C15.groupby_partition",
     "Lena.C15.groupby_groups_perm",
+    "Lena.C15.groupby_ignores_data",
     "Lena.C15.groupby_default_one_group",
     "Lena.C15.groupby_share_iff_agree",
     "Lena.C15.groupby_groups_iff_agree",
@@ -108,6 +123,14 @@ TRUSTED = [
     "json.dumps spells different keys and scalars differently (Tok.spell, characters that JSON escapes) is C08's "
     "assumption and is not exercised here (generated keys and strings contain no such character); the driver renders "
     "every group key with C08's to_string and the harness compares it with the real key string",
+    "the model is a pure function of values: that constructing a selector leaves the user's specification object as it "
+    "was, that GroupBy reads the context when the value is filled (a source may update one dictionary in place), that "
+    "an instance of a subclass of str / list / tuple is a string / list / tuple, are not expressible in it; the check "
+    "exercises them (a twin selector built first from the same specification object with the other raise_on_error; "
+    "flows whose values share context dictionaries updated in place; named tuples, list and str subclasses as "
+    "specifications and as group_by / merge) and the oracle judges the results",
+    "the isinstance table of the model (Data x PyClass, incl. numbers.Number/Integral, collections.abc.Mapping/"
+    "Sequence/Hashable, user classes with a subclass) against Python's isinstance on one instance per class",
     "JSON line protocol encoders (harness/props/c15.py, drivers/C15.lean)",
 ]
 ASSUMPTIONS = [
@@ -121,8 +144,16 @@ ASSUMPTIONS = [
     "model transcribes); BaseExceptions that are no Exceptions (KeyboardInterrupt, SystemExit, GeneratorExit) pass through "
     "`except Exception` by design and are outside the statement and the model",
     "contexts are built from None, bool, int, str, objects json cannot encode, and string-keyed dictionaries (plain or of a "
-    "subclass); floats, lists and tuples as context values are not generated (lena treats them as opaque JSON values); "
-    "agreement of two contexts on a key path is type-strict (True and 1 differ, as they do for to_string)",
+    "subclass); for selectors and contains also non-empty lists, tuples and one-element frozensets as context values "
+    "(opaque values: contains compares their str(), the model sees them as objects with that str()); for GroupBy lists "
+    "only, compared as wholes, in cases judged by the oracle alone (the model's group key has no list values; a tuple and "
+    "a list with the same items have the same to_string and are not both generated); floats as context values are not "
+    "generated; agreement of two contexts on a key path is type-strict (True and 1 differ, as they do for to_string)",
+    "'a class tests the type of the data' is Python's isinstance (inheritance and abstract base classes); 'a list is OR, a "
+    "tuple is AND, a string tests the context' hold for instances of subclasses of list / tuple / str (a named tuple is a "
+    "tuple); equal values of a flow are different values (each filled value is in a group as often as it was filled); "
+    "'their contexts' are the contexts at the time the values were filled; a value without context has the empty "
+    "context whatever its data is (also a pair whose second item is no dictionary)",
     "the key alphabet `names` of a case contains every sub-key of group_by / merge and of the specifications (hypothesis "
     "KeysKnown of the string-level theorems; the harness always sends the full alphabet): unknown sub-keys would all become "
     "one index (an example in Props/C15.lean shows the model accepting a key set the code rejects over too small an alphabet)",
@@ -142,7 +173,13 @@ RULE = ("Keys 'a', 'ab' (one a string prefix of the other), 'b'; every context b
         "values (rotated per case), as Selector and as Filter; 14 further leaves (8 exception classes incl. AttributeError, "
         "KeyError, a user-defined class, StopIteration; 6 results that are no bools) bare, in containers, under Not, in "
         "instances; all Not-chains of depth <= 3 x all raise_on_error combinations over 9 inner selectors; SelectContext "
-        "over 19 key forms x 10 predicates; seeded random specifications of depth <= 3 (quick 1800, thorough 100000). "
+        "over 19 key forms x 13 predicates (incl. predicates raising LenaKeyError / LenaTypeError / LenaValueError); all "
+        "18 classes (concrete, user-defined with a subclass, numbers.Number/Integral, collections.abc.Mapping/Sequence/"
+        "Hashable) x data of 19 kinds (incl. float, Fraction, dict, list, user subclasses of int and str, a named tuple), as "
+        "leaf / in a list / in a named tuple / under Not; strings, lists, tuples, And/Or arguments that are instances of "
+        "subclasses (fixed set + a quarter of the random containers); every select case builds a twin selector first from "
+        "the same specification object with the other raise_on_error; values with lists / tuples / sets as context values; "
+        "seeded random specifications of depth <= 3 (quick 1800, thorough 100000). "
         "filterseq: all pairs of 11 leaves + sampled (quick 300, thorough 8000); runif: 15 selectors x 4 sequences + sampled "
         "(quick 200, thorough 5000). groupby: every assignment of the 6 paths of depth <= 2 over {a,ab} to "
         "group_by/merge/neither x both roots (1458 key sets) x all 361 contexts of depth <= 2 with leaves {1,2,{}}; the "
@@ -151,7 +188,11 @@ RULE = ("Keys 'a', 'ab' (one a string prefix of the other), 'b'; every context b
         "contexts; all 169 combinations of 13 spellings of the arguments (strings, tuples, lists, empty containers) with "
         "equal contexts in different insertion orders; seeded random key sets over {a,ab,b} up to depth 3 with random "
         "contexts (repeated in other orders; quick 700, thorough 40000), callables, update/clear aliases, unserialisable "
-        "objects, re-use after reset. oldgroupby: singles, pairs, sampled triples of 6 callables x random flows. contains: 19 "
+        "objects, re-use after reset. The data of the values: positions, descending numbers, strings ('10' < '9') rotated "
+        "over the exhaustive scopes; 14 key sets (incl. str-subclass and named-tuple arguments) x 13 flows with equal "
+        "values filled several times, data in no order, bare pairs, one or several context dictionaries shared by the "
+        "values and updated in place; in the random flows: shuffled numbers, few distinct data, pairs with and without "
+        "context, shared dictionaries (a quarter), lists as context values (oracle only). oldgroupby: singles, pairs, sampled triples of 6 callables x random flows. contains: 19 "
         "strings x 169 contexts; _split_key, _startswith on small sets. Non-trivial: select - a value is selected and "
         "another is not, or an exception; groupby - at least two groups and a group with two values, or a construction error.")
 CASE_TIMEOUT = 20
@@ -184,6 +225,44 @@ class _D(dict):
     """a dictionary that is not exactly `dict` (as lena.context.Context, OrderedDict, defaultdict are)"""
 
 
+class _L(list):
+    """a list that is not exactly `list`: a list specification of this class is still a list (OR)"""
+
+
+class _Str(str):
+    """a string that is not exactly `str`"""
+
+
+class _MyInt(int):
+    """a user subclass of int"""
+
+
+class _User(object):
+    """a user-defined class, with a subclass"""
+
+    def __eq__(self, other):
+        return type(other) is type(self)
+
+    def __hash__(self):
+        return 7
+
+
+class _UserSub(_User):
+    pass
+
+
+_Point = collections.namedtuple("_Point", ["x", "y"])
+
+
+def _named_tuple(items):
+    """a named tuple (a subclass of tuple) holding the items: a tuple specification of this class is still a tuple (AND)"""
+    items = list(items)
+    return collections.namedtuple("_Cuts", ["f%d" % i for i in range(len(items))])(*items)
+
+
+_CONTAINER_LEAVES = {"list": list, "tuple": tuple, "set": frozenset}
+
+
 def _mk(c, o=0, depth=0):
     """JSON context -> a fresh Python context.  `o` chooses the insertion order of the keys at every level (0: sorted,
     1: reverse sorted, 2: sorted and rotated by one) — equal dictionaries in different orders must behave alike; about
@@ -199,6 +278,9 @@ def _mk(c, o=0, depth=0):
             d[k] = _mk(c[k], o, depth + 1)
         return d
     if isinstance(c, list):
+        if c[0] in _CONTAINER_LEAVES:
+            # a (non-empty) container as a context value: an opaque value for lena, seen through its str() only
+            return _CONTAINER_LEAVES[c[0]](c[1])
         return _Unser(c[1])
     return c
 
@@ -215,7 +297,31 @@ def _unmk(c):
         return {k: _unmk(v) for k, v in c.items()}
     if isinstance(c, _Unser):
         return ["obj", c.s]
+    if isinstance(c, list) and len(c) == 2 and c[0] in ("obj", "list", "tuple", "set"):
+        return c          # already the JSON form of a leaf (the function is also applied to JSON contexts)
+    for name, cls in _CONTAINER_LEAVES.items():
+        if isinstance(c, cls):
+            return [name, sorted(c, key=repr) if cls is frozenset else list(c)]
     return c
+
+
+def _model_ctx(c):
+    """the context as the model sees it: a container value is an object known by its str() (lena never looks inside)"""
+    if isinstance(c, dict):
+        return {k: _model_ctx(v) for k, v in c.items()}
+    if isinstance(c, list) and c and c[0] in _CONTAINER_LEAVES:
+        return ["obj", str(_CONTAINER_LEAVES[c[0]](c[1]))]
+    return c
+
+
+def _has_container(c):
+    if isinstance(c, dict):
+        return any(_has_container(v) for v in c.values())
+    return isinstance(c, list) and bool(c) and c[0] in _CONTAINER_LEAVES
+
+
+def _model_values(vals):
+    return [dict(v, c=_model_ctx(v["c"])) for v in vals]
 
 
 class _Custom(Exception):
@@ -234,6 +340,12 @@ def _fn_table():
     def raise_lke(v):
         raise lena.core.LenaKeyError("leaf")
 
+    def raise_lte(v):
+        raise lena.core.LenaTypeError("leaf")
+
+    def raise_lve(v):
+        raise lena.core.LenaValueError("leaf")
+
     def _data(v):
         if isinstance(v, tuple) and len(v) == 2 and isinstance(v[1], dict):
             return v[0]
@@ -249,6 +361,8 @@ def _fn_table():
         "false": lambda v: False,
         "raise_zde": lambda v: 1 // 0 > 0,
         "raise_lke": raise_lke,
+        "raise_lte": raise_lte,
+        "raise_lve": raise_lve,
         "pos": lambda v: _data(v) > 0,
         "inv": lambda v: 1 // _data(v) > 0,
         "has_ctx": lambda v: bool(_ctx(v)),
@@ -272,7 +386,12 @@ def _fn_table():
 
 
 def _pred_table():
+    import lena.core
     return {
+        # lena's own exception classes: the ones SelectContext meets when it looks up its key
+        "raise_lke": raise_(lena.core.LenaKeyError),
+        "raise_lte": raise_(lena.core.LenaTypeError),
+        "raise_lve": raise_(lena.core.LenaValueError),
         "true": lambda sc: True,
         "false": lambda sc: False,
         "raise_zde": lambda sc: 1 // 0 > 0,
@@ -286,7 +405,20 @@ def _pred_table():
     }
 
 
-_CLS = {"object": object, "int": int, "bool": bool, "str": str, "tuple": tuple, "float": float, "dict": dict}
+_CLS = {"object": object, "int": int, "bool": bool, "str": str, "tuple": tuple, "float": float, "dict": dict,
+        # further concrete classes, user-defined classes, abstract base classes (isinstance of a registered class)
+        "list": list, "NoneType": type(None), "MyInt": _MyInt, "Str": _Str, "User": _User, "UserSub": _UserSub,
+        "Number": numbers.Number, "Integral": numbers.Integral, "Mapping": collections.abc.Mapping,
+        "Sequence": collections.abc.Sequence, "Hashable": collections.abc.Hashable}
+
+# data that is no None / bool / int / str: {"k": KIND} in the JSON form of a value
+_DATA_KINDS = {
+    "float": lambda: 1.5, "dict": lambda: {"x": 1}, "list": lambda: [1, 2], "myint": lambda: _MyInt(7),
+    "mystr": lambda: _Str("s"), "user": _User, "usersub": _UserSub, "frac": lambda: fractions.Fraction(1, 2),
+    "point": lambda: _Point(1, 2),
+}
+_DATA_KIND_OF = {float: "float", dict: "dict", list: "list", _MyInt: "myint", _Str: "mystr", _User: "user",
+                 _UserSub: "usersub", fractions.Fraction: "frac", _Point: "point"}
 
 
 def _build_key(key):
@@ -307,28 +439,44 @@ def _build_key(key):
     return key
 
 
-def _build(spec):
-    """JSON specification -> the Python value the user would write (may raise at construction)."""
+def _build(spec, memo=None):
+    """JSON specification -> the Python value the user would write (may raise at construction).  Equal parts of a
+    specification are ONE Python object (`cut = Not(f); Selector([cut, (cut, g)])`)."""
+    if memo is None:
+        memo = {}
+    k = jdump(spec)
+    if k not in memo:
+        memo[k] = _build1(spec, memo)
+    return memo[k]
+
+
+def _build1(spec, memo):
     import lena.flow
+
+    def _build(s):          # noqa: F811 - the parts share the memo
+        return globals()["_build"](s, memo)
     t = spec["t"]
+    sub = spec.get("sub")       # an instance of a subclass of str / list / tuple is a string / list / tuple
     if t == "str":
-        return spec["s"]
+        return _Str(spec["s"]) if sub else spec["s"]
     if t == "cls":
         return _CLS[spec["c"]]
     if t == "fn":
         return _fn_table()[spec["f"]]
     if t == "list":
-        return [_build(s) for s in spec["l"]]
+        return _L(_build(s) for s in spec["l"]) if sub else [_build(s) for s in spec["l"]]
     if t == "tuple":
-        return tuple(_build(s) for s in spec["l"])
+        return _named_tuple(_build(s) for s in spec["l"]) if sub else tuple(_build(s) for s in spec["l"])
     if t == "not":
         return lena.flow.Not(_build(spec["s"]), raise_on_error=spec["roe"])
     if t == "sel":
         return lena.flow.Selector(_build(spec["s"]), raise_on_error=spec["roe"])
     if t == "and":
-        return lena.flow.And(tuple(_build(s) for s in spec["l"]), raise_on_error=spec["roe"])
+        items = [_build(s) for s in spec["l"]]
+        return lena.flow.And(_named_tuple(items) if sub else tuple(items), raise_on_error=spec["roe"])
     if t == "or":
-        return lena.flow.Or([_build(s) for s in spec["l"]], raise_on_error=spec["roe"])
+        items = [_build(s) for s in spec["l"]]
+        return lena.flow.Or(_L(items) if sub else items, raise_on_error=spec["roe"])
     if t == "selctx":
         return lena.flow.SelectContext(_build_key(spec["key"]), _pred_table()[spec["pred"]], raise_on_error=spec["roe"])
     if t == "bad":
@@ -339,7 +487,7 @@ def _build(spec):
 def _value(v):
     d = v["d"]
     if isinstance(d, dict):
-        d = (1, 2)
+        d = _DATA_KINDS[d["k"]]() if "k" in d else (1, 2)
     if v["c"] is None:
         return d
     return (d, _mk(v["c"], v.get("o", 0)))
@@ -351,7 +499,9 @@ def _unvalue(val):
         d, c = val
     else:
         d, c = val, None
-    if isinstance(d, tuple):
+    if type(d) in _DATA_KIND_OF:
+        d = {"k": _DATA_KIND_OF[type(d)]}
+    elif isinstance(d, tuple):
         d = {"tuple": True}
     return {"d": d, "c": _unmk(c)}
 
@@ -427,7 +577,17 @@ _VALUES = [
     {"d": 2, "c": {K1: {}, K2: 0}},
     {"d": 4, "c": {K1: {K2: None}, K2: ""}, "o": 1},
     {"d": 5, "c": {K1: {K2: _U}}},
+    # data of further classes (a float, a user subclass of int, a dictionary, instances of user classes, a named tuple,
+    # a Fraction: a Number by registration, not by inheritance); containers as context values
+    {"d": {"k": "float"}, "c": None},
+    {"d": {"k": "myint"}, "c": {K1: ["list", [K2, "1"]]}},
+    {"d": {"k": "dict"}, "c": None},
+    {"d": {"k": "usersub"}, "c": {K1: {K2: ["tuple", [1]]}, K2: ["set", [K1]]}, "o": 2},
+    {"d": {"k": "frac"}, "c": {K1: {K2: ["list", ["1"]]}}},
+    {"d": {"k": "point"}, "c": None},
 ]
+_NV = 12       # values per exhaustively enumerated specification (a rotating window over _VALUES)
+_DATA_JSON = [None, True, False, 0, 1, 2, -1, "s", "", {"tuple": True}] + [{"k": k} for k in sorted(_DATA_KINDS)]
 
 
 def _S(s):
@@ -446,16 +606,17 @@ _LEAVES4 = [_S("a.ab"), _C("int"), _F("true"), _F("pos")]
 _LEAVES9 = [_S("a"), _S("a.ab"), _S("a.ab.1"), _C("int"), _C("str"), _F("true"), _F("false"), _F("inv"), _F("raise_lke")]
 # leaves raising other exception classes, and leaves whose result is no bool
 _LEAVES_EXC = [_F(n) for n in ("raise_attr", "raise_val", "raise_rt", "raise_assert", "raise_custom", "raise_key", "raise_os",
-                               "raise_stop")]
+                               "raise_stop", "raise_lte", "raise_lve")]
 _LEAVES_VAL = [_F(n) for n in ("five", "zero", "empty", "xstr", "none", "data")]
-_FNS = ["true", "false", "raise_zde", "raise_lke", "pos", "inv", "has_ctx", "raise_attr", "raise_val", "raise_rt",
+_FNS = ["true", "false", "raise_zde", "raise_lke", "raise_lte", "raise_lve", "pos", "inv", "has_ctx", "raise_attr", "raise_val", "raise_rt",
         "raise_assert", "raise_custom", "raise_key", "raise_os", "raise_stop", "five", "zero", "empty", "xstr", "none", "data"]
 
 _KEY_FORMS = ["a", "a.ab", "ab", "", "a.ab.a", "ab.a", ["a"], ["a", "ab"], [], "a..ab", "c",
               {"dict": ["a"], "tail": "stop"}, {"dict": ["a"], "tail": {"key": "ab"}}, {"dict": ["a", "ab"], "tail": "stop"},
               {"dict": [], "tail": "stop"}, {"dict": ["a"], "tail": "multi"}, {"dict": [], "tail": "multi"},
               {"dict": ["a"], "tail": {"key": None}}, ["a", 5]]
-_PREDS = ["true", "false", "raise_zde", "isdict", "pos", "eq1", "ident", "raise_attr", "raise_custom", "raise_stop"]
+_PREDS = ["true", "false", "raise_zde", "isdict", "pos", "eq1", "ident", "raise_attr", "raise_custom", "raise_stop",
+          "raise_lke", "raise_lte", "raise_lve"]
 
 
 def _level(items, with_not=True):
@@ -473,6 +634,10 @@ def _level(items, with_not=True):
             for roe in (True, False):
                 out.append({"t": "not", "s": a, "roe": roe})
     return out
+
+
+# containers as context values (never empty; a set has one element: its str() does not depend on the hash seed)
+_CLEAVES = (["list", ["ab", "1"]], ["list", [1]], ["tuple", ["ab"]], ["tuple", [1, "a"]], ["set", ["ab"]], ["set", [1]])
 
 
 def _rand_ctx(rng, keys, depth, leaves=(1, 2, None, True, "ab", 0, "1")):
@@ -493,12 +658,20 @@ def _rand_selctx(rng):
     return {"t": "selctx", "key": key, "pred": rng.choice(_PREDS), "roe": rng.random() < 0.5}
 
 
+def _sub(rng, spec):
+    """sometimes the string / list / tuple is an instance of a subclass (a named tuple, a list subclass)"""
+    if rng.random() < 0.25:
+        spec["sub"] = True
+    return spec
+
+
 def _rand_spec(rng, depth):
     r = rng.random()
     if depth <= 0 or r < 0.3:
         k = rng.random()
         if k < 0.3:
-            return _S(rng.choice(["a", "ab", "a.ab", "a.ab.1", "ab.a", "a.ab.a", "", "a.", "c", "a.ab.U", "a.None", "b", "a.a"]))
+            return _sub(rng, _S(rng.choice(["a", "ab", "a.ab", "a.ab.1", "ab.a", "a.ab.a", "", "a.", "c", "a.ab.U", "a.None", "b",
+                                            "a.a", "a.['ab']", "a.ab.[1]"])))
         if k < 0.5:
             return _C(rng.choice(list(_CLS)))
         if k < 0.9:
@@ -508,23 +681,23 @@ def _rand_spec(rng, depth):
         return {"t": "bad"}
     n = rng.choice([0, 1, 1, 2, 2, 3])
     if r < 0.5:
-        return {"t": "list", "l": [_rand_spec(rng, depth - 1) for _ in range(n)]}
+        return _sub(rng, {"t": "list", "l": [_rand_spec(rng, depth - 1) for _ in range(n)]})
     if r < 0.7:
-        return {"t": "tuple", "l": [_rand_spec(rng, depth - 1) for _ in range(n)]}
+        return _sub(rng, {"t": "tuple", "l": [_rand_spec(rng, depth - 1) for _ in range(n)]})
     if r < 0.85:
         return {"t": "not", "s": _rand_spec(rng, depth - 1), "roe": rng.random() < 0.5}
     if r < 0.9:
         return {"t": "sel", "s": _rand_spec(rng, depth - 1), "roe": rng.random() < 0.5}
     if r < 0.95:
-        return {"t": "and", "l": [_rand_spec(rng, depth - 1) for _ in range(n)], "roe": rng.random() < 0.5}
-    return {"t": "or", "l": [_rand_spec(rng, depth - 1) for _ in range(n)], "roe": rng.random() < 0.5}
+        return _sub(rng, {"t": "and", "l": [_rand_spec(rng, depth - 1) for _ in range(n)], "roe": rng.random() < 0.5})
+    return _sub(rng, {"t": "or", "l": [_rand_spec(rng, depth - 1) for _ in range(n)], "roe": rng.random() < 0.5})
 
 
 def _rand_values(rng, n_extra=3, lo=1, hi=None):
     vals = list(_VALUES)
     for _ in range(n_extra):
-        d = rng.choice([0, 1, 2, -1, True, False, None, "s", "", {"tuple": True}])
-        c = None if rng.random() < 0.2 else _rand_ctx(rng, (K1, K2), 3, leaves=(1, 2, None, True, "ab", 0, "1", "", _U))
+        d = rng.choice(_DATA_JSON)
+        c = None if rng.random() < 0.2 else _rand_ctx(rng, (K1, K2), 3, leaves=(1, 2, None, True, "ab", 0, "1", "", _U) + _CLEAVES)
         vals.append({"d": d, "c": c, "o": rng.randrange(3)})
     rng.shuffle(vals)
     return vals[:rng.randint(lo, hi or len(vals))]
@@ -622,7 +795,7 @@ _KEYFNS = ["parity", "name", "zero", "const", "keyerr", "sign"]
 _SEQS = ["ident", "dup", "drop", "tag"]
 
 
-def _sub(rng):
+def _subrng(rng):
     return random.Random(rng.random())
 
 
@@ -651,7 +824,7 @@ def _gen_select_exhaustive(ctx, rng):
         if k in seen:
             continue
         seen.add(k)
-        vals = _rot(_VALUES, i)
+        vals = _rot(_VALUES, i)[:_NV]
         for roe in (True, False):
             yield {"op": "select", "spec": s, "roe": roe, "top": "selector", "values": vals}
         yield {"op": "select", "spec": s, "roe": True, "top": "filter", "values": vals}
@@ -675,12 +848,12 @@ def _gen_select_special(ctx):
             for roe in (True, False):
                 i += 1
                 s = {"t": "selctx", "key": key, "pred": pred, "roe": roe}
-                yield {"op": "select", "spec": s, "roe": True, "top": "filter", "values": _rot(_VALUES, i)}
-                if pred in ("true", "raise_zde", "eq1", "ident"):
+                yield {"op": "select", "spec": s, "roe": True, "top": "filter", "values": _rot(_VALUES, i)[:_NV]}
+                if pred in ("true", "raise_zde", "eq1", "ident", "raise_lke"):
                     yield {"op": "select", "spec": {"t": "list", "l": [s, _F("false")]}, "roe": not roe,
-                           "top": "selector", "values": _rot(_VALUES, i)}
+                           "top": "selector", "values": _rot(_VALUES, i)[:_NV]}
                     yield {"op": "select", "spec": {"t": "not", "s": s, "roe": not roe}, "roe": roe,
-                           "top": "filter", "values": _rot(_VALUES, i)}
+                           "top": "filter", "values": _rot(_VALUES, i)[:_NV]}
     for s in [{"t": "bad"}, {"t": "list", "l": [_F("true"), {"t": "bad"}]}, {"t": "not", "s": {"t": "bad"}, "roe": True},
               {"t": "tuple", "l": [{"t": "list", "l": [{"t": "bad"}]}]}]:
         for top in ("selector", "filter"):
@@ -707,6 +880,35 @@ def _gen_select_special(ctx):
                                    "values": _VALUES[:6]}
 
 
+def _gen_select_classes(ctx):
+    """a class tests the type of the data: every class (concrete, user-defined, abstract base classes) on data of
+    every kind, bare and with a context; as a leaf, in a list, in a tuple, under Not.  Strings, lists and tuples that
+    are instances of subclasses (a named tuple is a tuple: AND; a list subclass is a list: OR)."""
+    datas = [{"d": d, "c": None if i % 3 else {K1: i}} for i, d in enumerate(_DATA_JSON)]
+    for i, c in enumerate(sorted(_CLS)):
+        leaf = _C(c)
+        for s in (leaf, {"t": "list", "l": [_F("false"), leaf]}, {"t": "tuple", "l": [leaf, _F("true")], "sub": i % 2 == 0},
+                  {"t": "not", "s": leaf, "roe": True}):
+            yield {"op": "select", "spec": s, "roe": i % 2 == 0, "top": "selector", "values": datas}
+        yield {"op": "select", "spec": leaf, "roe": True, "top": "filter", "values": datas}
+    subs = [
+        {"t": "tuple", "l": [_C("int"), _F("pos")], "sub": True},
+        {"t": "list", "l": [_C("str"), _F("pos")], "sub": True},
+        {"t": "list", "l": [_C("str"), {"t": "tuple", "l": [_C("int"), _F("pos")], "sub": True}], "sub": True},
+        {"t": "tuple", "l": [], "sub": True}, {"t": "list", "l": [], "sub": True},
+        {"t": "str", "s": "a.ab", "sub": True}, {"t": "list", "l": [{"t": "str", "s": "a", "sub": True}, _C("str")]},
+        {"t": "and", "l": [_C("int"), _F("inv")], "roe": False, "sub": True},
+        {"t": "or", "l": [_F("inv"), _C("str")], "roe": False, "sub": True},
+        {"t": "not", "s": {"t": "tuple", "l": [_C("int"), _F("pos")], "sub": True}, "roe": True},
+        {"t": "tuple", "l": [{"t": "list", "l": [_F("raise_zde"), _C("int")], "sub": True}, _F("true")]},
+    ]
+    for i, s in enumerate(subs):
+        for top, roe in (("selector", True), ("selector", False), ("filter", True)):
+            yield {"op": "select", "spec": s, "roe": roe, "top": top, "values": _rot(_VALUES, 3 * i)[:_NV]}
+        yield {"op": "filterseq", "a": s, "b": _C("object"), "values": _rot(_VALUES, i)[:_NV]}
+        yield {"op": "runif", "spec": s, "seq": "dup", "values": _rot(_VALUES, i)[:_NV]}
+
+
 def _gen_select_random(ctx, rng, n):
     for _ in range(n):
         top = "filter" if rng.random() < 0.3 else "selector"
@@ -717,7 +919,7 @@ def _gen_select_random(ctx, rng, n):
 def _gen_filterseq(ctx, rng, n):
     for i, a in enumerate(_LEAVES9 + [_F("raise_stop"), _F("five")]):
         for b in _LEAVES9 + [_F("raise_stop"), _F("zero")]:
-            yield {"op": "filterseq", "a": a, "b": b, "values": _rot(_VALUES, i)}
+            yield {"op": "filterseq", "a": a, "b": b, "values": _rot(_VALUES, i)[:_NV]}
     for _ in range(n):
         yield {"op": "filterseq", "a": _rand_spec(rng, 2), "b": _rand_spec(rng, 2), "values": _rand_values(rng, hi=8)}
 
@@ -727,28 +929,29 @@ def _gen_runif(ctx, rng, n):
                       {"t": "selctx", "key": "a.ab", "pred": "eq1", "roe": True}, {"t": "bad"}, _F("raise_stop"), _F("data")]
     for i, s in enumerate(sels):
         for seq in _SEQS:
-            yield {"op": "runif", "spec": s, "seq": seq, "values": _rot(_VALUES, i)}
+            yield {"op": "runif", "spec": s, "seq": seq, "values": _rot(_VALUES, i)[:_NV]}
     for _ in range(n):
         yield {"op": "runif", "spec": _rand_spec(rng, 2), "seq": rng.choice(_SEQS), "values": _rand_values(rng, hi=8)}
 
 
 def _gen_groupby_exhaustive(ctx, rng):
     sets = list(_keysets_ab2())
-    for g, m in sets:
-        yield {"op": "groupby", "group_by": g, "merge": m, "ctxset": "ab2"}
+    modes = ("idx", "desc", "str")      # the data of the values: positions, descending numbers, strings
+    for i, (g, m) in enumerate(sets):
+        yield {"op": "groupby", "group_by": g, "merge": m, "ctxset": "ab2", "data": modes[i % 3]}
     # false values against absent ones and type-strictness at selected paths
     if ctx.tier == "quick":
         sets = rng.sample(sets, 300)
-    for g, m in sets:
-        yield {"op": "groupby", "group_by": g, "merge": m, "ctxset": "falsy"}
+    for i, (g, m) in enumerate(sets):
+        yield {"op": "groupby", "group_by": g, "merge": m, "ctxset": "falsy", "data": modes[i % 3]}
 
 
 def _gen_groupby_overlap(ctx, rng):
     sets = list(_keysets_ab2_overlap())
     if ctx.tier == "quick":
         sets = rng.sample(sets, 800)
-    for g, m in sets:
-        yield {"op": "groupby", "group_by": g, "merge": m, "ctxset": "ab2s"}
+    for i, (g, m) in enumerate(sets):
+        yield {"op": "groupby", "group_by": g, "merge": m, "ctxset": "ab2s", "data": ("idx", "desc", "str")[i % 3]}
 
 
 def _gen_groupby_special(ctx):
@@ -774,6 +977,29 @@ def _gen_groupby_special(ctx):
     for g in forms:
         for m in forms:
             yield {"op": "groupby", "group_by": g, "merge": m, "contexts": vals, "orders": vorders}
+    # the flow itself: equal values filled several times, data in no particular order, bare values that are pairs,
+    # sources that re-use one context dictionary and update it in place; arguments that are instances of subclasses
+    ctxs = [{"a": 1, "ab": 1}, {"a": 2, "ab": 1}, {"a": 1, "ab": 1}, {"a": 1, "ab": 2}, {"a": 2, "ab": 1}, {"a": 1, "ab": 1},
+            {"a": {"ab": 1}}, {"a": {"ab": 2}}, {"a": {"ab": 1}}, {}, None, {}, None, {"a": 2, "ab": 2}]
+    nn = len(ctxs)
+    flows = [
+        {"data": [5] * nn}, {"data": [i % 2 for i in range(nn)]}, {"data": "desc"}, {"data": "str"},
+        {"data": [(i * 5) % 7 - 3 for i in range(nn)]}, {"data": ["x", None, "x", 3, None, "x", 1, 1, 1, "", "", "", 0, 0]},
+        {"data": [{"pair": [i, i + 1]} for i in range(nn)]}, {"data": [{"pair": [1, 2]}] * nn},
+        {"data": [{"pair": ["x", None]}, 1] * (nn // 2)},
+        {"alias": [None if c is None else 0 for c in ctxs]}, {"alias": [None if c is None else i % 2 for i, c in enumerate(ctxs)]},
+        {"alias": [None if c is None else i // 3 for i, c in enumerate(ctxs)], "data": "desc"},
+        {"alias": [None if c is None else 0 for c in ctxs], "data": [1] * nn},
+        {"data": [5] * nn, "same": True}, {"data": [i % 2 for i in range(nn)], "same": True},
+    ]
+    for g, m in [("a", ""), ("", "a"), ("", ""), ("ab", ""), ("", "ab"), (["", "a.ab"], ["a"]), (["a"], ["", "a.ab"]), ("a.ab", ""),
+                 ({"strsub": "a"}, ""), ("", {"strsub": "a"}), ({"tuplesub": ["a"]}, {"strsub": ""}),
+                 ({"tuplesub": ["", "a.ab"]}, {"tuplesub": ["a"]}), ({"strsub": ""}, {"strsub": ""}), ({"tuplesub": []}, "")]:
+        for k, fl in enumerate(flows):
+            c = dict({"op": "groupby", "group_by": g, "merge": m, "contexts": ctxs, "orders": [(i + k) % 3 for i in range(nn)]}, **fl)
+            if k % 4 == 3:
+                c["via"], c["end"] = "update", "clear"
+            yield c
     objs = [{"a": 1, "ab": _U}, {"a": _U}, {"a": {"ab": _U, "a": 1}}, {"a": {"a": 1}, "ab": {"ab": _U}}, {"a": 1}, {"ab": 2},
             {"a": {"ab": 1, "a": _U}}, None]
     for g, m in [("a", ""), ("", "a"), ("", "ab"), ("a.a", ""), ("", "a.ab"), (["", "a.ab"], ["a"]), ("", ""), ("ab", ""),
@@ -786,6 +1012,10 @@ def _gen_groupby_random(ctx, rng, n):
         g, m = _rand_keyset(rng)
         k = rng.choice([2, 2, 3, 3, 4, 5, 6, 8, 12, 24])
         leaves = (1, 2, True, "1", None, 0, "", _U) if rng.random() < 0.2 else (1, 2, True, "1", None, 0, "")
+        if rng.random() < 0.12:
+            # lists as context values (JSON arrays for to_string): opaque values, compared as wholes.  The model has no
+            # such leaves: these cases are judged by the oracle alone (model_requests sends nothing)
+            leaves = (1, "1", None, ["list", [1]], ["list", ["1"]], ["list", [1, 2]], ["list", ["a", "ab"]], ["list", ["a"]])
         cs = [None if rng.random() < 0.03 else _rand_ctx(rng, _RKEYS, 3, leaves=leaves) for _ in range(k)]
         # the same logical context once more (it will be built with another insertion order)
         for _ in range(rng.choice([0, 1, 2])):
@@ -793,6 +1023,27 @@ def _gen_groupby_random(ctx, rng, n):
         c = {"op": "groupby", "group_by": g, "merge": m, "contexts": cs, "orders": [rng.randrange(3) for _ in cs]}
         if rng.random() < 0.1:
             c["via"], c["end"] = "update", "clear"
+        # the data of the values: positions, other orders, few distinct data (equal values several times), pairs
+        r = rng.random()
+        if r < 0.15:
+            c["data"] = rng.choice(["desc", "str"])
+        elif r < 0.3:
+            c["data"] = rng.sample(range(-len(cs), len(cs)), len(cs))
+        elif r < 0.5:
+            pool = rng.choice([[0], [0, 1], [1, "x", None], [{"pair": [1, 2]}, 3]])
+            c["data"] = [rng.choice(pool) for _ in cs]
+        elif r < 0.6:
+            c["data"] = [{"pair": [rng.choice([i, "p", None]), rng.choice([i, 0, "q"])]} if rng.random() < 0.6 else i
+                         for i in range(len(cs))]
+            for i in range(len(cs)):
+                if rng.random() < 0.3:
+                    cs[i] = None          # a bare value that is a pair (a two-dimensional point)
+        # a source that keeps one dictionary (or a few) and updates it in place for every value
+        if rng.random() < 0.25:
+            k = rng.choice([1, 1, 2, 3])
+            c["alias"] = [None if x is None or rng.random() < 0.1 else rng.randrange(k) for x in cs]
+        elif rng.random() < 0.2:
+            c["same"] = True          # an equal value is the same object, filled again
         yield c
 
 
@@ -815,11 +1066,14 @@ def _gen_old(ctx, rng, n):
 
 def _gen_small(ctx):
     strings = ["", "a", "ab", "a.ab", "a.ab.1", "a.1", "a.", ".a", "a..ab", "c", "a.ab.c", "a.None", "a.True", "a.U", "ab.a",
-               "a.ab.a", "a.a", "b", "a.b"]
-    leaves = [None, 1, True, "ab", _U, {}, {"ab": 1}, {"ab": {"a": 1}}, {"a": "1", "ab": None}, {"ab": _U}, "a", "abc"]
+               "a.ab.a", "a.a", "b", "a.b", "a.['ab', '1']", "a.('ab',)", "ab.['a']", "a.ab.[1]"]
+    # containers as values: contains compares str(value) with the last part, it never looks inside
+    leaves = [None, 1, True, "ab", _U, {}, {"ab": 1}, {"ab": {"a": 1}}, {"a": "1", "ab": None}, {"ab": _U}, "a", "abc",
+              ["list", ["ab", "1"]], ["tuple", ["ab"]], ["set", ["ab"]], {"ab": ["list", [1]]}, ["list", ["a"]]]
+    leaves_b = [None, 1, "ab", {"a": 1}, ["list", ["a"]], {"ab": _U}]
     ctxs = []
     for va in leaves + ["absent"]:
-        for vb in leaves + ["absent"]:
+        for vb in leaves_b + ["absent"]:
             c = {}
             if va != "absent":
                 c["a"] = va
@@ -841,10 +1095,11 @@ def gen_cases(ctx):
     ctx.exhaustive = False   # the deeper scopes are sampled
     rng = ctx.rng
     quick = ctx.tier == "quick"
-    r = [_sub(rng) for _ in range(10)]
+    r = [_subrng(rng) for _ in range(12)]
     cheap = [
         _gen_small(ctx),
         _gen_select_special(ctx),
+        _gen_select_classes(ctx),
         _gen_groupby_special(ctx),
         _gen_old(ctx, r[0], 150 if quick else 4000),
         _gen_filterseq(ctx, r[1], 300 if quick else 8000),
@@ -911,9 +1166,43 @@ def _keyfn_table():
 def _arg_items(x):
     """the strings of a group_by / merge argument in its JSON form: "s" -> ["s"]; [..] (a tuple) and {"list": [..]} (a
     list) -> the items; {"notiter": true} (a callable) -> None"""
+    x = _plain_arg(x)
     if isinstance(x, dict):
         return list(x["list"]) if "list" in x else None
     return [x] if isinstance(x, str) else list(x)
+
+
+def _plain_arg(x):
+    """{"strsub": s} (an instance of a subclass of str) is the string s, {"tuplesub": [..]} (a named tuple) the tuple"""
+    if isinstance(x, dict) and "strsub" in x:
+        return x["strsub"]
+    if isinstance(x, dict) and "tuplesub" in x:
+        return list(x["tuplesub"])
+    return x
+
+
+def _gb_data(case, i, n):
+    """the data of the i-th of the n values of a groupby case (JSON form): by default its index"""
+    d = case.get("data")
+    if d is None or d == "idx":
+        return i
+    if isinstance(d, list):
+        return d[i]
+    if d == "desc":
+        return n - 1 - i
+    if d == "str":
+        return str(i)        # "10" < "9": no order of the data is the arrival order
+    raise ValueError(d)
+
+
+def _gb_pydata(j):
+    return tuple(j["pair"]) if isinstance(j, dict) else j
+
+
+def _gb_jdata(x):
+    if isinstance(x, tuple):
+        return {"pair": [canon_keys(y) for y in x]}
+    return canon_keys(x)
 
 
 def canon_keys(x):
@@ -927,6 +1216,10 @@ def canon_keys(x):
 
 def _gb_arg(x):
     if isinstance(x, dict):
+        if "strsub" in x:
+            return _Str(x["strsub"])
+        if "tuplesub" in x:
+            return _named_tuple(x["tuplesub"])
         if "list" in x:
             return list(x["list"])
         return lambda val: 0          # group_by "is no longer a function"
@@ -940,6 +1233,10 @@ def run_impl(case):
     if op == "select":
         try:
             py = _build(case["spec"])
+            # the specification the user wrote is one Python object; he may build several selectors from it (a strict one
+            # and a lenient one): the twin, with the other raise_on_error, is built FIRST from the same object
+            twin_roe = False if case["top"] == "filter" else not case["roe"]
+            twin = lena.flow.Selector(py, raise_on_error=twin_roe)
             if case["top"] == "filter":
                 flt = lena.flow.Filter(py)
                 sel = flt._selector
@@ -950,6 +1247,7 @@ def run_impl(case):
             return {"init": exc_name(e)}
         vals = [_value(v) for v in case["values"]]
         r = [_out(sel, v) for v in vals]
+        rt = [_out(twin, v) for v in vals]
         kept, stop = _drain(lambda: flt.run(iter(vals)))
 
         # fill_into: the element is filled exactly with the selected values
@@ -979,7 +1277,7 @@ def run_impl(case):
         fill_all = {"kept": [_unvalue(v) for v in st2.vals], "stop": fill_stop}
         # the same selector object applied to the same values once more: selectors keep no state
         r2 = [_out(sel, v) for v in vals]
-        return {"r": r, "kept": kept, "stop": stop, "filled": filled, "r2": r2, "fillAll": fill_all}
+        return {"r": r, "kept": kept, "stop": stop, "filled": filled, "r2": r2, "fillAll": fill_all, "rt": rt}
     if op == "filterseq":
         try:
             a, b = _build(case["a"]), _build(case["b"])
@@ -1007,28 +1305,60 @@ def run_impl(case):
             return {"init": exc_name(e)}
         fill = gb.update if case.get("via") == "update" else gb.fill
         errors = []
+        cs = _contexts(case)
+        n = len(cs)
+        alias = case.get("alias")
+        shared = {}
+
+        again = {}
+
+        def make(i):
+            """the i-th value of the flow: bare data, or (data, context); with "alias" several values hold ONE dictionary
+            object, which the source updates in place before it yields the next value; with "same" a value equal to an
+            earlier one is the same Python object, filled once more"""
+            if case.get("same"):
+                k = jdump([_gb_data(case, i, n), cs[i]])
+                if k not in again:
+                    again[k] = make1(i)
+                return again[k]
+            return make1(i)
+
+        def make1(i):
+            d = _gb_pydata(_gb_data(case, i, n))
+            if cs[i] is None:
+                return d
+            c = _mk(cs[i], _order_of(case, i))
+            if alias is not None and alias[i] is not None:
+                if alias[i] in shared:
+                    obj = shared[alias[i]]
+                    obj.clear()
+                    obj.update(c)
+                    c = obj
+                else:
+                    shared[alias[i]] = c
+            return (d, c)
+
+        def view(grp):
+            out = []
+            for v in grp:
+                if isinstance(v, tuple) and len(v) == 2 and isinstance(v[1], dict):
+                    out.append({"d": _gb_jdata(v[0]), "c": _unmk(v[1])})
+                else:
+                    out.append({"d": _gb_jdata(v), "c": None})
+            return out
+
         with warnings.catch_warnings():
             warnings.simplefilter("ignore")
-            given = []
-            for i, c in enumerate(_contexts(case)):
-                val = i if c is None else (i, _mk(c, _order_of(case, i)))
-                given.append(val)
+            for i in range(n):
+                val = make(i)
                 try:
                     fill(val)
                 except Exception as e:  # noqa: BLE001
                     errors.append({"at": i, "e": exc_name(e)})
             import json
             try:
-                groups = []
-                intact = True
-                for grp in gb.compute():
-                    groups.append([v if isinstance(v, int) else v[0] for v in grp])
-                    for v in grp:
-                        # the groups hold the filled values, unchanged
-                        i = v if isinstance(v, int) else v[0]
-                        c = _contexts(case)[i] if isinstance(i, int) and 0 <= i < len(given) else None
-                        if not (v == given[i] if c is None else (isinstance(v, tuple) and _unmk(v[1]) == _unmk(c))):
-                            intact = False
+                gvals = [view(grp) for grp in gb.compute()]
+                groups = [[v["d"] for v in g] for g in gvals]
                 keystrs = [k if isinstance(k, str) else repr(k) for k in gb.groups]
                 keys = []
                 for k in keystrs:
@@ -1047,16 +1377,18 @@ def run_impl(case):
                 else:
                     gb.reset()
                 after = [list(g) for g in gb.compute()]
-                for i, c in enumerate(_contexts(case)):
+                shared.clear()
+                again.clear()
+                for i in range(n):
                     try:
-                        fill(i if c is None else (i, _mk(c, _order_of(case, i))))
+                        fill(make(i))
                     except lena.core.LenaValueError:
                         pass
-                reuse = [[v if isinstance(v, int) else v[0] for v in grp] for grp in gb.compute()]
+                reuse = [[v["d"] for v in view(grp)] for grp in gb.compute()]
             except Exception as e:  # noqa: BLE001
                 reuse = {"e": exc_name(e)}
         return {"groups": groups, "keys": keys, "keystrs": keystrs, "errors": errors, "after": after, "reuse": reuse,
-                "intact": intact}
+                "gvals": gvals}
     if op == "oldgroupby":
         import lena.flow.group_by
         gbj = case["group_by"]
@@ -1150,20 +1482,22 @@ def model_requests(case):
                 _keys_of_spec(case[k], names)
         for v in case["values"]:
             _keys_of_ctx(v["c"], names)
-        return [dict(case, names=sorted(names))]
+        return [dict(case, names=sorted(names), values=_model_values(case["values"]))]
     if op == "groupby":
         cs = _contexts(case)
+        if "contexts" in case and any(_has_container(c) for c in cs):
+            return []           # a list as a context value: outside the model's values, the oracle judges these cases
         for c in cs:
             _keys_of_ctx(c, names)
         for arg in (case["group_by"], case["merge"]):
             for key in _arg_items(arg) or []:
                 names.update(key.split("."))
-        return [{"op": "groupby", "names": sorted(names), "group_by": case["group_by"], "merge": case["merge"],
+        return [{"op": "groupby", "names": sorted(names), "group_by": _plain_arg(case["group_by"]), "merge": _plain_arg(case["merge"]),
                  "contexts": [_unmk(c) for c in cs], "via": case.get("via", "fill"), "end": case.get("end", "reset")}]
     if op == "contains":
         _keys_of_ctx(case["ctx"], names)
         names.update(case["s"].split("."))
-        return [dict(case, names=sorted(names))]
+        return [dict(case, names=sorted(names), ctx=_model_ctx(case["ctx"]))]
     return [case]
 
 
@@ -1201,11 +1535,23 @@ def _compare(case, res, replies):
         if op == "groupby":
             return _compare_gb_init(case, res, m)
         return None
+    if op in ("select", "filterseq", "runif"):
+        # the yielded values as the model sees them (containers in a context are objects known by their str())
+        res = dict(res)
+        res["kept"] = _model_values(res["kept"])
+        if "and" in res:
+            res["and"] = dict(res["and"], kept=_model_values(res["and"]["kept"]))
+        if "fillAll" in res:
+            res["fillAll"] = dict(res["fillAll"], kept=_model_values(res["fillAll"]["kept"]))
     if op == "select":
         for k in ("r", "kept", "stop"):
             e = _eq(k, res[k], m[k])
             if e:
                 return e
+        e = _eq("the twin selector built first from the same specification object, with the other raise_on_error",
+                res["rt"], m["rTwin"])
+        if e:
+            return e
         # fill_into = the selector applied to each value
         e = (_eq("fill_into", res["filled"], m["fill"]) or _eq("beforeError/firstError = filterRun", True, m["specRun_eq_model"])
              or _eq("sem", res["r"], m["sem"])
@@ -1255,7 +1601,10 @@ def _compare(case, res, replies):
         return e
     if "broken" in res:
         return f"implementation: {res['broken']}"
-    e = (_eq("groups", res["groups"], m["groups"]) or _eq("keys", res["keys"], m["keys"])
+    # the model tags the values with their positions in the flow; the flow of the case carries the data of the case
+    n = len(_contexts(case))
+    mgroups = [[_gb_data(case, i, n) for i in g] for g in m["groups"]]
+    e = (_eq("groups", res["groups"], mgroups) or _eq("keys", res["keys"], m["keys"])
          or _eq("to_string of the keys (C08's model)", res["keystrs"], m["keystrs"])
          or _eq("fill errors", res["errors"], m["errors"]) or _eq("after reset/clear", res["after"], m["after"]))
     if e:
@@ -1438,7 +1787,7 @@ def _split_paths(arg):
 
 def _gm(case):
     """the key paths listed in group_by and in merge, after the adjustment of the default arguments"""
-    if case["group_by"] == "" and case["merge"] == "":
+    if _plain_arg(case["group_by"]) == "" and _plain_arg(case["merge"]) == "":
         return set(), {()}          # GroupBy(): everything into one group
     return _split_paths(case["group_by"]), _split_paths(case["merge"])
 
@@ -1465,7 +1814,7 @@ def _ref_gb_init(case):
     G, M = _gm(case)
     if (() in G) + (() in M) != 1:
         return "LenaValueError"     # the root must be in exactly one of them
-    if not (case["group_by"] == "" and case["merge"] == ""):
+    if not (_plain_arg(case["group_by"]) == "" and _plain_arg(case["merge"]) == ""):
         for key in gi + mi:
             if key != "" and "" in key.split("."):
                 return "LenaValueError"     # improper subkey
@@ -1499,6 +1848,8 @@ def _nodes(c, p=()):
         if isinstance(v, dict):
             yield q, ("dict",)
             yield from _nodes(v, q)
+        elif isinstance(v, list) and v[0] in _CONTAINER_LEAVES:
+            yield q, ("leaf", v[0], jdump(v[1]))         # a container is a value, compared as a whole
         elif isinstance(v, (_Unser, list)):
             yield q, ("leaf", "obj", v.s if isinstance(v, _Unser) else v[1])
         else:
@@ -1589,7 +1940,21 @@ def _oracle(case, res):
         for i, (a, b) in enumerate(zip(res["r"], exp)):
             if a != b or type(a) is not type(b):
                 return (f"selector gives {a} on value {jdump(case['values'][i])}, the compositional reference gives {b} "
-                        f"(spec {jdump(spec)}, raise_on_error={roe}, as {case['top']})")
+                        f"(spec {jdump(spec)}, raise_on_error={roe}, as {case['top']}; the same specification object had been "
+                        f"used for Selector(spec, raise_on_error={False if case['top'] == 'filter' else not roe}) before)")
+        # the same specification object had been used for another selector (with the other raise_on_error) before:
+        # each of the two evaluates the specification with its own setting
+        troe = False if case["top"] == "filter" else not roe
+        for i, v in enumerate(vals):
+            try:
+                b = bool(_absorb(troe, lambda: _ref_eval(spec, troe, v)))
+            except Exception as e:  # noqa: BLE001
+                b = {"e": _exc(e)}
+            a = res["rt"][i]
+            if a != b or type(a) is not type(b):
+                return (f"Selector(spec, raise_on_error={troe}) gives {a} on value {jdump(case['values'][i])}, the compositional "
+                        f"reference gives {b}; a second selector was built from the same specification object afterwards "
+                        f"(spec {jdump(spec)})")
         # Filter keeps exactly the selected values (up to the first exception, which propagates)
         kept, stop = _run_ref(exp, case["values"], lambda v, b: [v] if b else [])
         if jdump(res["kept"]) != jdump(kept) or res["stop"] != stop:
@@ -1657,34 +2022,63 @@ def _oracle(case, res):
     raised = {e["at"] for e in res["errors"]}
     for e in res["errors"]:
         if e["at"] not in unser:
-            return (f"GroupBy({case['group_by']!r}, {case['merge']!r}).fill raised {e['e']} on context {jdump(_unmk(cs[e['at']]))}: "
-                    f"the value was not filled")
+            i = e["at"]
+            val = (f"the value {jdump(_gb_data(case, i, len(cs)))} without context (its context is empty)" if cs[i] is None
+                   else f"data {jdump(_gb_data(case, i, len(cs)))} with context {jdump(_unmk(cs[i]))}")
+            return f"GroupBy({case['group_by']!r}, {case['merge']!r}).fill raised {e['e']} on {val}: the value was not filled"
     what = f"GroupBy({case['group_by']!r}, {case['merge']!r})"
     orders = [_order_of(case, i) for i in range(len(cs))]
     if any(orders):
         what += f" [contexts built with key insertion orders {orders if len(orders) <= 12 else '...'}: 0 sorted, 1 reversed, 2 rotated]"
-    msg = _partition_failure(what, cs, views, res["groups"], raised)
+    data = [_gb_data(case, i, len(cs)) for i in range(len(cs))]
+    if case.get("alias"):
+        what += (f" [values {case['alias']} share one context dictionary each, updated in place by the source between "
+                 f"the values; contexts as they were when the values were filled]")
+    msg = _partition_failure(what, cs, views, res["groups"], raised, data)
     if msg:
         return msg
-    if not res.get("intact", True):
-        return f"{what} does not yield the values it was filled with (a context was changed or replaced)"
+    if not case.get("alias"):
+        # the groups hold the filled values themselves (data and context), each as often as it was filled
+        exp = sorted(jdump({"d": data[i], "c": cs[i]}) for i in range(len(cs)) if i not in raised)
+        got = sorted(jdump(v) for g in res["gvals"] for v in g)
+        if exp != got:
+            return f"{what} does not yield the values it was filled with (a value or a context was changed or replaced)"
     # the same element used again after reset() / clear(): the property holds for the second flow too
     if isinstance(res["reuse"], dict):
         return f"{what} filled again after reset()/clear(): {res['reuse']['e']}"
-    return _partition_failure(what + " filled again after reset()/clear()", cs, views, res["reuse"], raised)
+    return _partition_failure(what + " filled again after reset()/clear()", cs, views, res["reuse"], raised, data)
 
 
-def _partition_failure(what, cs, views, groups, raised):
+def _partition_failure(what, cs, views, groups, raised, data):
     """the statement: the groups partition the filled values; arrival order inside a group; two values share a group
-    exactly when their selected views are equal"""
+    exactly when their selected views are equal.  `groups` holds the data of the values, `data[i]` is the data of the
+    i-th value of the flow."""
     filled = [i for i in range(len(cs)) if i not in raised]
+    keyd = [jdump(d) for d in data]
+    if len({keyd[i] for i in filled}) != len(filled):
+        # several values of the flow carry the same data (equal values are still different values of the flow): the
+        # groups must be the classes of the filled values under "same selected view", each in arrival order
+        classes = {}
+        for i in filled:
+            classes.setdefault(views[i], []).append(i)
+        exp = [[data[i] for i in cl] for cl in classes.values()]
+        if sorted(jdump(g) for g in groups) != sorted(jdump(g) for g in exp):
+            return (f"{what}: filled with values whose data are {[data[i] for i in filled]}, the groups hold {jdump(groups)[:300]}; "
+                    f"the filled values that agree on every selected key path, in arrival order, are {jdump(exp)[:300]}")
+        return None
+    idx = {keyd[i]: i for i in filled}
+    try:
+        groups = [[idx[jdump(d)] for d in g] for g in groups]
+    except KeyError:
+        return f"{what}: the groups {jdump(groups)[:300]} hold a value that was not filled"
     flat = sorted(i for g in groups for i in g)
     if flat != filled:
-        return f"{what}: the groups {groups} are not a partition of the {len(filled)} filled values"
+        return f"{what}: the groups {groups} (positions in the flow) are not a partition of the {len(filled)} filled values"
     owner = {}
     for gi, g in enumerate(groups):
         if g != sorted(g):
-            return f"{what}: arrival order is not preserved inside the group {g}"
+            return (f"{what}: arrival order is not preserved inside the group {[data[i] for i in g]} "
+                    f"(the values arrived in the order {[data[i] for i in sorted(g)]})")
         for i in g:
             owner[i] = gi
     by_view = {}
@@ -1817,7 +2211,7 @@ def classify(case, res):
 
 
 def signature(case, failure):
-    c = {k: v for k, v in case.items() if k not in ("values", "contexts", "ctxset")}
+    c = {k: v for k, v in case.items() if k not in ("values", "contexts", "ctxset", "data", "alias", "same")}
     return jdump(c)
 
 
@@ -1848,11 +2242,20 @@ def shrink(case):
         return
     cs = [_unmk(c) for c in _contexts(case)]
     os_ = [_order_of(case, i) for i in range(len(cs))]
-    base = {k: v for k, v in case.items() if k not in ("ctxset", "orders")}
+    base = {k: v for k, v in case.items() if k not in ("ctxset", "orders", "data", "alias")}
+    n = len(cs)
+    ds = [_gb_data(case, i, n) for i in range(n)]
+    al = case.get("alias")
 
     def sub(idx):
-        return dict(base, contexts=[cs[i] for i in idx], orders=[os_[i] for i in idx])
-    n = len(cs)
+        idx = list(idx)
+        c = dict(base, contexts=[cs[i] for i in idx], orders=[os_[i] for i in idx])
+        if case.get("data") not in (None, "idx") or len(idx) != n:
+            c["data"] = [ds[i] for i in idx]
+        if al:
+            c["alias"] = [al[i] for i in idx]
+        return c
+    full = sub(range(n))
     if n > 2:
         # a wrong merge or a wrong separation is visible on two values
         if n <= 60:
@@ -1869,12 +2272,16 @@ def shrink(case):
         yield sub([0])
         yield sub([1])
     if any(os_):
-        yield dict(base, contexts=cs, orders=[0] * n)
+        yield dict(full, orders=[0] * n)
+    if al:
+        yield {k: v for k, v in full.items() if k != "alias"}
+    if "data" in full:
+        yield {k: v for k, v in full.items() if k != "data"}
     for k in ("group_by", "merge"):
         a = case[k]
         if isinstance(a, list) and len(a) > 1:
             for i in range(len(a)):
-                yield dict(base, contexts=cs, orders=os_, **{k: a[:i] + a[i + 1:]})
+                yield dict(full, **{k: a[:i] + a[i + 1:]})
 
 
 # ---- MANIFEST texts ------------------------------------------------------------------------
@@ -1886,11 +2293,12 @@ LEVEL_TEXT = ("Lean 4 theorems about a transcribed model of Selector/And/Or/Not/
               "which is the longest-listed-prefix rule when no path is listed twice; the rejected key sets are exactly the "
               "improperly nested ones; a value of the flow is in the same yielded group as another iff their contexts agree on "
               "every selected path; arrival order preserved; fill raises exactly for an unserialisable object at a selected "
-              "path) and of the deprecated _GroupBy - 31 theorems about the model, 22 auxiliary ones about the specification "
+              "path; the data of the values plays no role) and of the deprecated _GroupBy - 33 theorems about the model, 22 auxiliary ones about the specification "
               "vocabulary - tied to /repo by a correspondence check (exhaustive small scopes, sampled beyond; contexts in "
               "varying insertion orders and dict subclasses, keys that are string prefixes of each other, ten exception "
-              "classes, results that are no bools; the specification-side definitions are executed by the driver and compared "
-              "too) and a direct reference-evaluator / reference-partition oracle on the real code that states the property "
+              "classes, results that are no bools, 18 classes x 19 kinds of data, subclass instances as specifications, "
+              "re-used specification objects, shared and mutated context dictionaries, repeated values, data in any order; "
+              "the specification-side definitions are executed by the driver and compared too) and a direct reference-evaluator / reference-partition oracle on the real code that states the property "
               "only (documented behaviour outside the statement is compared with the model, not demanded).")
 LEVEL_NOTE = ("Trusted: Lean kernel (+ propext, Classical.choice, Quot.sound), the hand transcription validated by the "
               "correspondence run, slot-vector dictionaries over a key alphabet that contains every listed sub-key, truth "
